@@ -1,7 +1,8 @@
 """C16 — Every connection request is eventually served (edb/server/connpool/pool.py).  PARTIAL.
 
 Same model, proofs and deterministic harness as C15 (see props/c15.py).  Proved
-(coq/theories/C16/Props.v): no-lost-wake-up invariant, retry-or-abort on connect failure.
+(coq/theories/C16/Props.v): no-lost-wake-up invariant, retry-or-abort on connect failure, tick chain
+never stops while an acquire() is pending (Pool/TickProofs.v).
 The full liveness statement is false of the faithful model: coq/theories/C16/Refuted.v proves
 `~ C16_full` from a recorded trace of the real pool; that schedule and every generated schedule
 are DRIVEN TO QUIESCENCE on the real code by a fair scheduler (all ready callbacks run, every
@@ -20,7 +21,7 @@ from props import c15
 
 PROP = 'C16'
 THEOREMS = ['C16_no_lost_wakeup', 'C16_quiescent_no_idle_with_waiters', 'C16_retry_or_abort',
-            'C16_block_ids_distinct']
+            'C16_block_ids_distinct', 'C16_tick_chain_alive', 'C16_tick_rearms']
 REFUTED = ['C16_full_refuted', 'C16_late_cancel_passes_wakeup_on']
 WITNESS = '4,50,1;a1 x x o1 p1'      # the schedule behind Refuted.w_trace
 
